@@ -474,6 +474,10 @@ Verdict IoEngine::execute(const Plan& plan, EventLog& log, Stats& st)
     int ns = 0; B = ioev::build_gkf(plan, &ns, &ev_shape); fired += ns; valid = false;
     st.add("synthetic_gkf_networks"); st.add("synthetic_gkf_steps", ns);
   }
+  if (plan.get("synth") == "tidy") {            // a network that is valid by construction (io_events.h tidy_network), clusters in varying order
+    sim::Rng tg((uint64_t)plan.geti("tseed", 1)); B = ioev::tidy_network(tg); fired++; valid = true;
+    st.add("synthetic_valid_networks");
+  }
   if (plan.get("synth") == "g3") {              // grammar-derived g3 model, built from the plan's steps
     int ns = 0; B = ioev::build_g3(plan, &ns, &ev_shape); fired += ns; valid = false;
     st.add("synthetic_g3_models"); st.add("synthetic_g3_steps", ns);
@@ -663,6 +667,15 @@ Plan IoEngine::generate(uint64_t seed, uint64_t index, const std::string& tier)
     }
     if (g.chance(1, 12)) p.seti("noclose", 1);
     int nc = g.chance(1, 2) ? 0 : (int)g.range(1, 4);
+    for (int i = 0; i < nc; i++) { Step s; s.op = "cut"; s.a = {(long long)g.below(4000)}; p.steps.push_back(s); }
+    return p;
+  }
+  if (g.chance(1, 25)) {
+    // networks that are valid by construction (three fixed points, one or two new ones, observations of mixed kinds,
+    // levelling and vector clusters in either order): clause 4 applies, whatever the chunking
+    p.set("synth", "tidy"); p.set("name", "synthetic-valid-gkf"); p.set("target", "local"); p.seti("tseed", (long long)g.below(1000000));
+    p.set("args", "- --xml -"); p.seti("xmlfile", -1);
+    int nc = g.chance(1, 2) ? 0 : (int)g.range(1, 3);
     for (int i = 0; i < nc; i++) { Step s; s.op = "cut"; s.a = {(long long)g.below(4000)}; p.steps.push_back(s); }
     return p;
   }
